@@ -13,6 +13,8 @@ from pyvc.engine import PyRaise, Unsupported
 
 
 def load(R):
+    from pyvc import heapmaps
+    heapmaps.register(R)     # mapping objects (a parent's index) are mutable heap objects: writing through an alias is a write to the parent
     Entry = R.record("_ResultTypeAndContentKey", result_type=TObj(), content_key=TObj(), from_parent=TBool)
     for a, t in dict(_merge_parent=TObj(), _index=TObj(), result_type=TObj(), content_key=TObj(), from_parent=TObj()).items():
         R.attr(a, t)
